@@ -11,6 +11,15 @@ ill-formed answers `bad-op`).
   LRVALID <slot>               `valid` | `invalid <first failing conjunct>`
   RUN <slot> <fuel> <syms>     `accept <tree>` | `error <code|N> <index> <state> <expected>` |
                                `internal <why>` | `out-of-fuel`
+  GEN <start> <startPrime> <eoi> <prods>
+                               the model generator `gen G` (level B): `gen conflicts=<0|1> n=<states>
+                               items=<..> actions=<..|?> gotos=<..>` | `gen out-of-fuel`
+  MARKALL <src> <dst> <fuel> <examples>
+                               model of the `mark_error` loop of make_parser: `marked <n>` (result stored
+                               in <dst>) | `refused <k>` (example k returns a message).  examples:
+                               `syms|where|code;...`, where = `E` (end of input) | `A<i>` (ANY_TOKEN at
+                               index i) | `T<i>` (the token at index i)
+  LRTERM <slot>                `terminates` | `diverge below=<u|-> state=<s> key=<a>` (termination analysis)
   BISIM <slotA> <slotB>        `bisim ok pairs=<n> identity=<bool>` | `bisim mismatch path=<syms> at=<s>,<t> why=<..>`
   SAMERULES <slotA> <slotB>    `same` | `differ`
 Empty fields are written `-`.
@@ -23,6 +32,9 @@ Empty fields are written `-`.
 import Emboss.Model.Lr1
 import Emboss.Model.Lr1Valid
 import Emboss.Model.Lr1Bisim
+import Emboss.Model.Lr1Term
+import Emboss.Model.Lr1Gen
+import Emboss.Model.Merr
 import Std.Data.HashMap
 open Emboss.Lr1
 
@@ -133,6 +145,49 @@ def showResult : Result → String
     s!"error {showCode c} {i} {s} " ++ (if e.isEmpty then "-" else ",".intercalate (e.map toString))
   | .internal w => "internal " ++ w
   | .outOfFuel => "out-of-fuel"
+
+def parseExample (s : String) : Option ErrExample :=
+  match s.splitOn "|" with
+  | [syms, wh, code] => do
+    let syms ← parseNats (fld syms)
+    let toks : List Token := syms.zipIdx.map (fun (x, i) => (⟨x, i⟩ : Token))
+    let code ← code.toNat?
+    if wh == "E" then pure ⟨toks, .eoi, code⟩
+    else
+      let i ← (wh.drop 1).toNat?
+      let t ← toks[i]?
+      if wh.startsWith "A" then pure ⟨toks, .any t, code⟩
+      else if wh.startsWith "T" then pure ⟨toks, .tok t, code⟩
+      else none
+  | _ => none
+
+/-- `markAll` that also reports the index of the first refused example -/
+def markAllIdx (A : Automaton) (fuel : Nat) : Nat → List ErrExample → Except Nat Automaton
+  | _, [] => .ok A
+  | k, e :: es =>
+    match markError A fuel e with
+    | some B => markAllIdx B fuel (k + 1) es
+    | none => .error k
+
+def showAction : Action → String
+  | .shift s => s!"S{s}"
+  | .reduce p => s!"R{p}"
+  | .accept => "A"
+  | .error c => "E" ++ showCode c
+
+def showGen (o : Gen.Out) : String :=
+  let items := ";".intercalate (o.cert.items.toList.zipIdx.map fun (l, i) =>
+    s!"{i}:" ++ ",".intercalate (l.map fun it => s!"{it.pi}.{it.dot}.{it.la}"))
+  let acts := if o.conflicts then "?" else
+    ";".intercalate ((o.aut.action.toList.zipIdx.filterMap fun (r, i) =>
+      match r with
+      | none => none
+      | some r =>
+        let r := (r.toArray.qsort (fun a b => a.1 < b.1)).toList
+        some (s!"{i}:" ++ ",".intercalate (r.map fun e => s!"{e.1}={showAction e.2}"))))
+  let gotos := ";".intercalate ((o.aut.goto.toList.zipIdx.filterMap fun (r, i) =>
+    if r.isEmpty then none else some (s!"{i}:" ++ ",".intercalate (r.map fun e => s!"{e.1}={e.2}"))))
+  s!"gen conflicts={if o.conflicts then 1 else 0} n={o.cert.items.size} items={items} actions={if acts.isEmpty then "-" else acts} gotos={if gotos.isEmpty then "-" else gotos}"
 
 /-! unverified search for the state pairing; its result is checked by the proved `bisimB` -/
 def allTargets (A : Automaton) : Nat :=
@@ -253,6 +308,29 @@ def handlePure (st : St) (line : String) : St × String :=
       let c := mkCert g c
       (st, if validFast g a c then "valid" else "invalid " ++ validWhy g a c)
     | _, _, _ => (st, "bad-op")
+  | ["GEN", start, sp, eoi, prods] =>
+    match start.toNat?, sp.toNat?, eoi.toNat?, parseRules prods with
+    | some start, some sp, some eoi, some prods =>
+      (st, match gen ⟨start, prods, sp, eoi⟩ with
+           | some o => showGen o
+           | none => "gen out-of-fuel")
+    | _, _, _, _ => (st, "bad-op")
+  | ["MARKALL", src, dst, fuel, exs] =>
+    match st.auts[src]?, fuel.toNat?, (splitNE (fld exs) ";").mapM parseExample with
+    | some a, some fuel, some exs =>
+      match markAllIdx a fuel 0 exs with
+      | .ok b => ({ st with auts := st.auts.insert dst b }, s!"marked {exs.length}")
+      | .error k => (st, s!"refused {k}")
+    | _, _, _ => (st, "bad-op")
+  | ["LRTERM", slot] =>
+    match st.auts[slot]? with
+    | some a =>
+      (st, if termOK a then "terminates" else
+        match termWhy a with
+        | some (u, s, k) =>
+          "diverge below=" ++ (match u with | some u => toString u | none => "-") ++ s!" state={s} key={k}"
+        | none => "diverge below=- state=- key=-")
+    | none => (st, "bad-op")
   | ["LRPART", slot, part] =>
     match st.auts[slot]?, st.gram, st.cert with
     | some a, some g, some c =>
